@@ -41,6 +41,10 @@ impl F {
 }
 // stand-in for `DefaultSolver<T> = Solver<DefaultProblemData<T>, ..>` (src/solver/core/solver.rs): only `data` is read
 pub struct DefaultSolver<T> { pub data: DefaultProblemData<T> }
+// so that an edit such as `settings.unwrap_or_default()` still type-checks and is judged by the contract (seed C19_K ended as a
+// compile error of the emitted unit = UNDECIDED): the derived / builder Default of the real type, as an uninterpreted value
+pub uninterp spec fn default_settings() -> DefaultSettings<F>;
+impl Default for DefaultSettings<F> { #[verifier::external_body] fn default() -> (r: Self) ensures r == default_settings() { unimplemented!() } }
 
 pub open spec fn rows_below(a: CscMatrix<F>, bound: int) -> bool {
     forall|k: int| 0 <= k < a.rowval@.len() ==> a.rowval@[k] < bound
